@@ -8,7 +8,7 @@
     values), every combination of options, every grace period and interval, every fault plan and
     cancellation point, every clock. [file s k] is the value of the terminal key k.
     [jt o clk s0 k] = deleting k is justified at one of the readings: exists i, justified o (clk i) s0 k. *)
-From CM Require Import Lib.Str Lib.CleanSyntax Gen.Consts Clean.Model Clean.Proofs Clean.Prog Clean.Check Clean.SpecProofs Clean.Concurrent Clean.Interfere Clean.Effective Clean.EffectiveCerts Clean.Kill Clean.InterfereSeq Clean.ConcurrentKill Clean.ConcurrentForeign.
+From CM Require Import Lib.Str Lib.CleanSyntax Gen.Consts Clean.Model Clean.Proofs Clean.Prog Clean.Check Clean.SpecProofs Clean.Concurrent Clean.Interfere Clean.Effective Clean.EffectiveCerts Clean.Kill Clean.InterfereSeq Clean.ConcurrentKill Clean.ConcurrentForeign Clean.Final Clean.Final2 Clean.Final3 Clean.Final4.
 From Coq Require Import String Ascii.
 Open Scope Z_scope.
 
@@ -429,6 +429,183 @@ Theorem C18_every_schedule_live_assets_untouched : forall s0 base suf v c thr0,
   lookup (ks_store (kstepsf (KS s0 None thr0) sched)) (base ++ suf) = lookup s0 (base ++ suf).
 Proof. exact live_all_schedules. Qed.
 Print Assumptions C18_every_schedule_live_assets_untouched.
+
+(** ** FINAL ROUND: clauses the monitor checks on the implementation, or that were added for seeded changes, as theorems
+    about the model (Clean/Final.v) *)
+
+(** "does nothing if a cleaning was recorded more recently than the interval" -- in particular when the record is dated in the
+    FUTURE (clock skew between instances): at every reading, now - recorded < interval => storage untouched, no work *)
+Theorem C18_record_within_interval_or_future_skips : forall e o clk s0 v c ts i0, 0 < interval o ->
+  file s0 spec_last_clean = Some (v, c) -> as_clean c = Some (ts, i0) ->
+  (forall i, clk i - ts < interval o) ->
+  sto (snd (clean e o clk s0)) = s0 /\ has_kind does_work (rev (lg (snd (clean e o clk s0)))) = false.
+Proof. exact recorded_within_interval_or_future_skips. Qed.
+Print Assumptions C18_record_within_interval_or_future_skips.
+Corollary C18_future_record_skips : forall e o clk s0 v c ts i0, 0 < interval o ->
+  file s0 spec_last_clean = Some (v, c) -> as_clean c = Some (ts, i0) -> (forall i, clk i <= ts) ->
+  sto (snd (clean e o clk s0)) = s0 /\ has_kind does_work (rev (lg (snd (clean e o clk s0)))) = false.
+Proof. exact future_record_skips. Qed.
+Print Assumptions C18_future_record_skips.
+
+(** staples: NextUpdate ALONE decides -- whatever else the bytes read as (the identity of the value, a certificate, a record;
+    status, ThisUpdate / midpoint, an embedded responder certificate are not part of the reading): not past NextUpdate at any
+    reading => kept with its value under every fault plan; past it at every reading, or unparseable => gone in a fault-free run *)
+Theorem C18_staple_fate_is_next_update : forall e o clk s0 a v ac ast acl, child spec_ocsp a ->
+  file s0 a = Some (v, Cls ac ast acl) ->
+  (forall nu, ast = Some nu -> (forall i, clk i <= nu) ->
+     file (sto (snd (clean e o clk s0))) a = file s0 a) /\
+  (no_faults e -> do_ocsp o = true -> interval o <= 0 -> notfile s0 spec_ocsp ->
+   (ast = None \/ exists nu, ast = Some nu /\ forall i, nu < clk i) ->
+   lookup (sto (snd (clean e o clk s0))) a = None).
+Proof. exact staple_fate_is_next_update. Qed.
+Print Assumptions C18_staple_fate_is_next_update.
+
+(** certificates: the NotAfter of the certificate the file reads as (its FIRST PEM block -- the leaf, as certmagic stores
+    bundles) alone decides, in terms of the X.509 field itself: not past it by more than the grace period at any reading =>
+    X.crt, X.key, X.json keep their values under every fault plan, whatever else the file holds; past it by the grace period and
+    a second at every reading => gone in a fault-free run *)
+Theorem C18_cert_fate_is_not_after : forall e o clk s0 base v na ast acl,
+  site_assetb (base ++ spec_ext_crt) = true ->
+  file s0 (base ++ spec_ext_crt) = Some (v, Cls (Some na) ast acl) ->
+  ((forall i, clk i - na <= grace o) ->
+   forall suf, In suf asset_exts -> file (sto (snd (clean e o clk s0))) (base ++ suf) = file s0 (base ++ suf)) /\
+  (forall ik sk, no_faults e -> do_certs o = true -> interval o <= 0 -> crt_wf s0 ->
+   notfile s0 spec_certs -> child spec_certs ik -> child ik sk -> notfile s0 ik -> notfile s0 sk ->
+   child sk (base ++ spec_ext_crt) ->
+   (forall i, grace o + second <= clk i - na) ->
+   forall suf, In suf asset_exts -> lookup (sto (snd (clean e o clk s0))) (base ++ suf) = None).
+Proof. exact cert_fate_is_not_after. Qed.
+Print Assumptions C18_cert_fate_is_not_after.
+
+(** a Load error is not a reason to delete: against ANY world, every Delete of a cleaning comes after a SUCCESSFUL Load of the
+    key that decided it (the staple itself; X.crt for X.crt, X.key, X.json: [related]) -- or is the Delete of a folder listed
+    empty and Stat'ed as a folder *)
+Theorem C18_deletes_follow_successful_loads : forall o (W : Type) (wexec : act -> W -> resp * W) w,
+  let h := fst (wrun W wexec (clean_locked_prog o) w []) in
+  forall k x, In (ADelete k, x) h ->
+  (exists a v c, In (ALoad a, XLoad (LOk v c)) h /\ In k (related a)) \/ In (AStat k, XStat StatDir) h.
+Proof. exact deletes_follow_successful_loads. Qed.
+Print Assumptions C18_deletes_follow_successful_loads.
+
+(** ... and on the storage: a key directly in ocsp/ that is not a file (a directory: Load fails; or nothing) keeps everything
+    below it, under every fault plan *)
+Theorem C18_not_a_file_under_ocsp_kept : forall e o clk s0 a k, child spec_ocsp a -> file s0 a = None ->
+  covers a k = true -> file (sto (snd (clean e o clk s0))) k = file s0 k.
+Proof. exact not_a_file_under_ocsp_kept. Qed.
+Print Assumptions C18_not_a_file_under_ocsp_kept.
+
+(** the monitor under interference, as far as the frame theorems reach: on the model's own observation of a cleaning with any
+    foreign operations ([model_case_i]) the lock discipline holds, and the difference clause [diff_ok_f] holds for every key the
+    two frame theorems speak about *)
+Theorem C18_monitor_lock_discipline_under_interference : forall e fs o clk t0 t1 s0 t,
+  under_lock None (lock_trace (model_case_i e fs o clk t0 t1 s0 t)) = true.
+Proof. exact interference_lock_discipline. Qed.
+Print Assumptions C18_monitor_lock_discipline_under_interference.
+Theorem C18_monitor_sound_other_keys_under_interference : forall e fs o clk t0 t1 s0 t k,
+  has_prefix ocsp_pfx k = false -> has_prefix certs_pfx k = false -> k <> spec_last_clean ->
+  (forall i f, In (i, f) fs -> touches k f = false) ->
+  diff_ok_f (model_case_i e fs o clk t0 t1 s0 t) (s0f (model_case_i e fs o clk t0 t1 s0 t)) k = true.
+Proof. exact monitor_sound_other_keys. Qed.
+Print Assumptions C18_monitor_sound_other_keys_under_interference.
+Theorem C18_monitor_sound_live_assets_under_interference : forall e fs o clk t0 t1 s0 t base suf v c,
+  site_assetb (base ++ spec_ext_crt) = true -> In suf asset_exts ->
+  lookup s0 (base ++ spec_ext_crt) = Some (File v c) ->
+  (forall i, spec_expired (clk i) (grace o) c = false) ->
+  (forall i f, In (i, f) fs ->
+     covers (fkey f) (base ++ spec_ext_crt) = false /\ covers (fkey f) (base ++ suf) = false) ->
+  diff_ok_f (model_case_i e fs o clk t0 t1 s0 t) (s0f (model_case_i e fs o clk t0 t1 s0 t)) (base ++ suf) = true.
+Proof. exact monitor_sound_live_assets. Qed.
+Print Assumptions C18_monitor_sound_live_assets_under_interference.
+
+(** the per-run clauses ([runs_ok]: a run that deletes goes on to store the record; a run that returns nil has stored it or done
+    no work; a record more recent than the interval, or dated in the future, means no work) on the same observation, whatever the
+    others do as long as they leave last_clean.json alone: every path through the work ends in the Store of the record *)
+Theorem C18_monitor_runs_ok_under_interference : forall e fs o clk t0 t1 s0 t,
+  (forall i, clk i <= t1) -> (forall i f, In (i, f) fs -> touches spec_last_clean f = false) ->
+  runs_ok (model_case_i e fs o clk t0 t1 s0 t) (c_runs (model_case_i e fs o clk t0 t1 s0 t)) (rec0 s0) = true.
+Proof. exact interference_runs_ok_untouched_record. Qed.
+Print Assumptions C18_monitor_runs_ok_under_interference.
+
+(** hence the monitor's verdict on the model under interference IS its difference clause: the only clause the model can fail is
+    [diff_ok_f] on a key inside the cleaned namespaces that another actor wrote -- the check-then-delete window
+    (C18_foreign_writer_refuted, known finding); everything else of [spec_ok] is proved for every foreign history *)
+Theorem C18_monitor_verdict_under_interference_is_the_difference_clause : forall e fs o clk t0 t1 s0 t,
+  (forall i, clk i <= t1) -> (forall i f, In (i, f) fs -> touches spec_last_clean f = false) ->
+  let c := model_case_i e fs o clk t0 t1 s0 t in
+  spec_ok c =
+  match all_fops c with
+  | [] => forallb (diff_ok c) (map fst (c_s0 c) ++ map fst (c_s1 c))
+  | _ => forallb (diff_ok_f c (s0f c)) (map fst (c_s0 c) ++ map fst (s0f c) ++ map fst (c_s1 c))
+  end.
+Proof. exact interference_spec_ok_is_diff. Qed.
+Print Assumptions C18_monitor_verdict_under_interference_is_the_difference_clause.
+
+(** the monitor on a KILLED run (the clauses added with the kill: expiry event in [lock_trace], exemption in [runs_ok], replay of
+    the first n calls): the observation of a cleaner that dies when its call n begins, inside the locked part -- the first n calls
+    of the model's run under [with_kill e n], the storage it leaves -- satisfies the WHOLE monitor, for every clock in the bracket *)
+Theorem C18_killed_run_satisfies_monitor : forall e n o clk t0 t1 s0 t, (forall i, t0 <= clk i <= t1) ->
+  let log := rev (lg (snd (clean (with_kill e n) o clk s0))) in
+  (1 <= n < List.length log)%nat -> (exists k, hd_error log = Some (Ev KLock k true)) ->
+  spec_ok (killed_case e n o clk t0 t1 s0 t) = true.
+Proof. intros e n o clk t0 t1 s0 t H log. exact (killed_satisfies_spec e n o clk t0 t1 s0 t H). Qed.
+Print Assumptions C18_killed_run_satisfies_monitor.
+Theorem C18_killed_run_replays : forall e n o now s0 t, kill_at e = None ->
+  let st' := snd (clean (with_kill e n) o (fun _ => now) s0) in
+  let c := Case (lfe e) s0 [RunRec t o (faults e) (efaults e) (cancel_at e) now now 9%N [] (pfaults e) (Some n)]
+                (map (TEv t) (firstn n (rev (lg st')))) (sto st') in
+  replay c (c_runs c) s0 = Some (sto st').
+Proof. exact model_ok_refl_killed. Qed.
+Print Assumptions C18_killed_run_replays.
+
+(** ... and over the history the harness produces for every kill -- the dead cleaner's calls, the expiry of its lock, then the
+    cleaning that follows on the storage it left: the lock discipline of the monitor holds *)
+Theorem C18_killed_then_next_lock_discipline : forall e1 n o1 clk1 e2 o2 clk2 a0 a1 b0 b1 s0,
+  let log1 := rev (lg (snd (clean (with_kill e1 n) o1 clk1 s0))) in
+  (1 <= n < List.length log1)%nat -> (exists k, hd_error log1 = Some (Ev KLock k true)) ->
+  under_lock None (lock_trace (killed_then_next_case e1 n o1 clk1 e2 o2 clk2 a0 a1 b0 b1 s0)) = true.
+Proof. intros e1 n o1 clk1 e2 o2 clk2 a0 a1 b0 b1 s0 log1. exact (killed_then_next_lock_discipline e1 n o1 clk1 e2 o2 clk2 a0 a1 b0 b1 s0). Qed.
+Print Assumptions C18_killed_then_next_lock_discipline.
+
+(** what later cleanings DO finish after a death (Clean/Final3.v): a cleaning under any environment without partial Deletes -- in
+    particular the model of a killed cleaner -- only removes whole subtrees and writes the record, so the hypotheses of the
+    effectiveness theorem carry over to the storage it leaves ([clean_preserves]); the next fault-free cleaning removes X.crt, X.key,
+    X.json of every certificate whose X.crt is STILL THERE and that is expired for the grace period at every reading of its clock
+    (the counterpart of C18_orphans_after_kill_refuted at the end of this file: what is lost for good are the assets whose X.crt the
+    dead cleaner had already deleted) *)
+Theorem C18_next_cleaning_finishes_what_is_left : forall e1 n o1 clk1 e2 o2 clk2 s0 ik sk a v c,
+  pfaults e1 = [] -> no_faults e2 -> do_certs o2 = true -> interval o2 <= 0 -> crt_wf s0 ->
+  notfile s0 spec_certs -> child spec_certs ik -> child ik sk -> notfile s0 ik -> notfile s0 sk ->
+  child sk a -> seqb (path_ext a) spec_ext_crt = true ->
+  let s1 := sto (snd (clean (with_kill e1 n) o1 clk1 s0)) in
+  file s1 a = Some (v, c) -> (forall i, spec_expired (clk2 i) (grace o2) c = true) ->
+  forall x, In x [a; trim_suffix spec_ext_crt a ++ spec_ext_key; trim_suffix spec_ext_crt a ++ spec_ext_json] ->
+  forall k, covers x k = true -> lookup (sto (snd (clean e2 o2 clk2 s1))) k = None.
+Proof. exact next_cleaning_finishes_what_is_left. Qed.
+Print Assumptions C18_next_cleaning_finishes_what_is_left.
+
+(** "records when it ran" in the form the monitor uses it: a cleaning whose call log shows a SUCCESSFUL Store of the record leaves
+    the record (a reading of its clock, its instance) in the storage; one that issued no Store leaves the record alone *)
+Theorem C18_successful_store_leaves_the_record : forall e clk o s0,
+  stored_ok (lg (snd (clean e o clk s0))) = true ->
+  exists i, lookup (sto (snd (clean e o clk s0))) spec_last_clean = Some (written (clk i) o).
+Proof. exact stored_ok_written. Qed.
+Print Assumptions C18_successful_store_leaves_the_record.
+Theorem C18_no_store_leaves_the_record_alone : forall e o clk s0,
+  stored_any (lg (snd (clean e o clk s0))) = false ->
+  lookup (sto (snd (clean e o clk s0))) spec_last_clean = lookup s0 spec_last_clean.
+Proof. exact no_store_record_untouched. Qed.
+Print Assumptions C18_no_store_leaves_the_record_alone.
+
+(** the history form of the last sentence of the property as the monitor evaluates it ([runs_ok]: per run in lock order, carrying
+    along a lower bound of the recorded time -- the start of the bracket of the last run with a successful Store; nothing once a
+    Store reported an error, since it may or may not have taken effect): it holds of the model for any two cleanings one after
+    the other, each with its own options, fault plan and clock within its bracket *)
+Theorem C18_two_cleanings_satisfy_the_run_clauses : forall e1 o1 clk1 a0 a1 e2 o2 clk2 b0 b1 s0,
+  (forall i, a0 <= clk1 i <= a1) -> (forall i, b0 <= clk2 i <= b1) ->
+  runs_ok (seq2_case e1 o1 clk1 a0 a1 e2 o2 clk2 b0 b1 s0) (c_runs (seq2_case e1 o1 clk1 a0 a1 e2 o2 clk2 b0 b1 s0))
+          (rec0 (c_s0 (seq2_case e1 o1 clk1 a0 a1 e2 o2 clk2 b0 b1 s0))) = true.
+Proof. exact seq2_runs_ok. Qed.
+Print Assumptions C18_two_cleanings_satisfy_the_run_clauses.
 
 (** ** who cleans, read from the source on every run: nothing inside the package calls CleanStorage (there is no
     timer path in certmagic itself -- [Cache.maintainAssets] renews and staples only; the application, e.g. Caddy's
@@ -939,3 +1116,94 @@ Example ex_past_not_after :
   let c := crt (T - 30 * day + 500000000) in
   spec_expired T (30 * day) c = false /\ spec_expired (T + second) (30 * day) c = true.
 Proof. vm_compute. split; reflexivity. Qed.
+
+(** final round: satisfiable hypotheses *)
+Example ex_future_record : (* the record of ex_store is dated T - 2 d; a cleaner whose clock shows T - 3 d *)
+  sto (snd (clean ex_env ex_opts (at_ (T - 3 * day)) ex_store)) = ex_store.
+Proof.
+  apply (C18_future_record_skips ex_env ex_opts (at_ (T - 3 * day)) ex_store 15
+           (Cls None None (Some (T - 2 * day, s2k "other"))) (T - 2 * day) (s2k "other")).
+  - reflexivity.
+  - reflexivity.
+  - reflexivity.
+  - intros i. vm_compute. discriminate.
+Qed.
+Example ex_staple_fate :
+  file (sto (snd (clean ex_env ex_opts_ni (at_ T) ex_store))) (s2k "ocsp/a-fresh") = file ex_store (s2k "ocsp/a-fresh") /\
+  lookup (sto (snd (clean ex_env ex_opts_ni (at_ T) ex_store))) (s2k "ocsp/a-stale") = None.
+Proof.
+  split.
+  - apply (proj1 (C18_staple_fate_is_next_update ex_env ex_opts_ni (at_ T) ex_store (s2k "ocsp/a-fresh") 10 None (Some (T + day)) None
+                    ltac:(exists (s2k "a-fresh"); split; reflexivity) eq_refl) (T + day) eq_refl).
+    intros i. vm_compute. discriminate.
+  - apply (proj2 (C18_staple_fate_is_next_update ex_env ex_opts_ni (at_ T) ex_store (s2k "ocsp/a-stale") 11 None (Some (T - day)) None
+                    ltac:(exists (s2k "a-stale"); split; reflexivity) eq_refl)).
+    + repeat split.
+    + reflexivity.
+    + vm_compute. discriminate.
+    + intros v c. vm_compute. discriminate.
+    + right. exists (T - day). split; [reflexivity | intros i; reflexivity].
+Qed.
+Example ex_cert_fate_hyps :
+  let base := s2k "certificates/iss/live.example/live.example" in
+  site_assetb (base ++ spec_ext_crt) = true /\
+  file ex_store (base ++ spec_ext_crt) = Some (0, Cls (Some (T + 30 * day)) None None) /\
+  (forall i, at_ T i - (T + 30 * day) <= grace ex_opts) /\
+  file (sto (snd (clean ex_env ex_opts (at_ T) ex_store))) (base ++ spec_ext_key) = file ex_store (base ++ spec_ext_key).
+Proof. split; [reflexivity|]. split; [reflexivity|]. split; [intros i; vm_compute; discriminate | vm_compute; reflexivity]. Qed.
+Definition ex_ocsp_dir_store : store :=
+  [ (s2k "ocsp/d-1/inner", File 1 (stp (T - day))); (s2k "ocsp/a-stale", File 2 (stp (T - day))) ].
+Example ex_not_a_file_kept :
+  child spec_ocsp (s2k "ocsp/d-1") /\ file ex_ocsp_dir_store (s2k "ocsp/d-1") = None /\
+  covers (s2k "ocsp/d-1") (s2k "ocsp/d-1/inner") = true /\
+  map fst (sto (snd (clean ex_env ex_opts_ni (at_ T) ex_ocsp_dir_store))) = [spec_last_clean; s2k "ocsp/d-1/inner"].
+Proof. split; [exists (s2k "d-1"); split; reflexivity|]. vm_compute. repeat split; reflexivity. Qed.
+Example ex_killed_monitor_hyps :
+  let log := rev (lg (snd (clean (with_kill ex_env 12) ex_opts_ni (at_ T) ex_store2))) in
+  (1 <= 12 < List.length log)%nat /\ hd_error log = Some (Ev KLock spec_lock true) /\
+  spec_ok (killed_case ex_env 12 ex_opts_ni (at_ T) T T ex_store2 0) = true.
+Proof. vm_compute. repeat split; try reflexivity; apply Nat.leb_le; reflexivity. Qed.
+
+(** the monitor on the model under interference: a renewal stored before the cleaner's second listing of the folder (call 8)
+    passes; the same renewal just before the Delete of the folder (call 10) is lost and the monitor says so -- through its
+    difference clause, the only one that can fail (the others are theorems) *)
+Example ex_monitor_under_interference :
+  touches spec_last_clean (FPut ex_renewed (File 77 (crt (T + 90 * day)))) = false /\
+  spec_ok (model_case_i ex_env [(8%nat, FPut ex_renewed (File 77 (crt (T + 90 * day))))] ex_opts0 (at_ T) T T ex_fs_store 0) = true /\
+  spec_ok (model_case_i ex_env [(10%nat, FPut ex_renewed (File 77 (crt (T + 90 * day))))] ex_opts0 (at_ T) T T ex_fs_store 0) = false.
+Proof. vm_compute. repeat split; reflexivity. Qed.
+
+(** what does NOT hold (and what the code really does): "whatever a dead cleaner left undone, later cleanings finish". The assets
+    are deleted in the order X.crt, X.key, X.json; a cleaner that dies after Delete(X.crt) leaves X.key and X.json, and no later
+    cleaning -- fault-free, as often as one likes -- looks at a site without X.crt: the private key of a long-expired certificate
+    stays for good (witness: the example storage, death when call 12 begins, two complete cleanings afterwards) *)
+Theorem C18_orphans_after_kill_refuted : exists e n o clk s0 k,
+  kill_at e = None /\ no_faults e /\
+  (exists v c na, file s0 (k ++ spec_ext_crt) = Some (v, c) /\ as_cert c = Some na /\ forall i, spec_expired (clk i) (grace o) c = true) /\
+  let s1 := sto (cleank e n o clk s0) in
+  let s2 := sto (snd (clean e o clk s1)) in
+  let s3 := sto (snd (clean e o clk s2)) in
+  lookup s1 (k ++ spec_ext_crt) = None /\ lookup s3 (k ++ spec_ext_key) <> None /\ lookup s3 (k ++ spec_ext_key) = lookup s0 (k ++ spec_ext_key).
+Proof.
+  exists ex_env, 12%nat, ex_opts_ni, (at_ T), ex_store2, (s2k "certificates/iss/dead.example/dead.example").
+  split; [reflexivity|]. split; [repeat split|]. split.
+  - exists 3, (crt (T - 31 * day)), (T - 31 * day). split; [reflexivity|]. split; [reflexivity | intros i; reflexivity].
+  - vm_compute. split; [reflexivity|]. split; [discriminate | reflexivity].
+Qed.
+Print Assumptions C18_orphans_after_kill_refuted.
+
+
+(** ... whereas a cleaner that dies BEFORE it deleted X.crt (here: when its call 9 begins) leaves nothing the next one cannot finish:
+    hypotheses of C18_next_cleaning_finishes_what_is_left, and X.key of the dead site is gone after the follow-up *)
+Example ex_next_cleaning_finishes :
+  let s1 := sto (snd (clean (with_kill ex_env 9) ex_opts_ni (at_ T) ex_store2)) in
+  pfaults ex_env = [] /\ crt_wfb ex_store2 = true /\
+  file s1 (s2k "certificates/iss/dead.example/dead.example.crt") = Some (3, crt (T - 31 * day)) /\
+  lookup (sto (snd (clean ex_env ex_opts_ni (at_ T) s1))) (s2k "certificates/iss/dead.example/dead.example.key") = None.
+Proof. vm_compute. repeat split; reflexivity. Qed.
+
+(** hypotheses of C18_two_cleanings_satisfy_the_run_clauses / C18_successful_store_leaves_the_record on the example storage: the first cleaning stores the record successfully; both clocks lie in their brackets *)
+Example ex_two_cleanings :
+  stored_ok (lg (snd (clean ex_env ex_opts (at_ T) ex_store2))) = true /\
+  (forall i, T <= at_ T i <= T) /\ (forall i, T + second <= at_ (T + second) i <= T + second).
+Proof. split; [vm_compute; reflexivity|]. split; intros i; unfold at_; lia. Qed.
